@@ -4,7 +4,7 @@ func init() {
 	register(&PropSpec{
 		ID: "C16",
 		Explain: "Decides structural clauses of the NYCT trips extension for every feed and all four option combinations (options are branch conditions; both edges are analysed): " +
-			"(NYCT) every write to an entity in updateTripOrVehicle is dominated by proto.HasExtension(tripDesc, E_NyctTripDescriptor); GetTrack is {no extension -> nil; actual track set -> actual; else scheduled}; direction is NORTH -> 0 otherwise 1 (C02 maps 0/1 to False/True); the start time is formatted HH:MM:SS from capture group 1 of TripIDRegex, which is exactly six leading digits, only on a successful match, through integer arithmetic only; assigned trips get a vehicle descriptor whose id is the train id; the value handed to the stale-trip filter is false without the descriptor and GetIsAssigned() on every other path; " +
+			"(NYCT) every write to an entity in updateTripOrVehicle is dominated by proto.HasExtension(tripDesc, E_NyctTripDescriptor); GetTrack is {no extension -> nil; actual track set -> actual; else scheduled}; direction is NORTH -> 0 otherwise 1 (C02 maps 0/1 to False/True); the start time is formatted HH:MM:SS from capture group 1 of TripIDRegex, which is exactly six leading digits in a pattern that accepts the same ids as the documented NYCT format (compared after parsing), only on a successful match, through integer arithmetic only; assigned trips get a vehicle descriptor whose id is the train id; the value handed to the stale-trip filter is false without the descriptor and GetIsAssigned() on every other path; " +
 			"the M-train fix stores only the stop id, under route == \"M\", len == 4 and membership in the table {M11,M12,M13,M14,M16,M18}, its character table is the involution N<->S with everything else untouched, and it runs exactly when PreserveMTrainPlatformsInBushwick is false; " +
 			"the stale filter's extracted decision table equals the definition (unassigned, and no stops or first-stop departure-else-arrival time zero or strictly before the feed time) and ShouldSkip additionally requires the extension and the option. " +
 			"the parsed origin time is multiplied before it is divided, with the factor 6/10 (nothing is computed from the raw number first); (SCAN) no processing loop is left by a break. Not decided: the exhaustive 000000-599999 arithmetic of the origin-time conversion (numerical; only its integer-ness, source and scaling shape are checked).",
